@@ -417,12 +417,22 @@ pub fn gen_segs<'a>(src: &mut Src, root: &'a J, start: Vec<Node<'a>>, cfg: &GenC
 }
 
 pub fn gen_query(src: &mut Src, root: &J, cfg: &GenCfg) -> Query {
+    oracle::reset();
     let start = Node {
         steps: vec![],
         v: root,
     };
     let segs = gen_segs(src, root, vec![start], cfg, cfg.filter_depth, cfg.max_segs);
-    Query { abs: true, segs }
+    let q = Query { abs: true, segs };
+    // a query whose reference evaluation does not finish within the step budget (unions over
+    // descendants over nested filters multiply) is replaced by the trivial query: neither the harness
+    // nor the library is asked to do that much work, and no verdict is derived from it
+    oracle::reset();
+    let _ = oracle::eval(&q, root, &strict());
+    if oracle::take_gave_up() {
+        return Query { abs: true, segs: vec![] };
+    }
+    q
 }
 
 // ------------------------------------------------------------------------------------------------
